@@ -8,6 +8,10 @@ from .common import ToolError, log
 
 # property id -> module under driver.checks with `run(prop, tier, seed, replay) -> exit code`
 REGISTRY = {
+    "C01": "c01",
+    "C02": "c02",
+    "C03": "c03",
+    "C04": "c04",
     "C05": "c05",
 }
 
